@@ -295,3 +295,12 @@ PROPS['C12']['explanation'] = ('E1: SED.read (4 unit/order variants): wavelength
                                'and column k describe the same wavelength; name, distance in cm, apertures, units stored. SEDCube.read (4 variants): the same on the third axis, frequencies seen by a consumer '
                                'satisfy lambda nu = c; SEDCube.write: every extension cell for cell with its unit, frequencies derived from the wavelengths; SEDCube.get_sed: the SED of the first row with that '
                                'name. E2: write/read round trips through real files in both orders, cube vs per-file, convolved-flux files.')
+
+
+# ---- cube packages with a wavelength instead of a filter name (C16, second half) ------------------------
+FSC = 'sedfitter.convolved_fluxes.convolved_fluxes.MonochromaticFluxes.from_sed_cube'
+PROPS['C16']['e1'] = PROPS['C16']['e1'] + [RV2, FSC]
+PROPS['C16']['assumptions'] = [x for x in PROPS['C16']['assumptions'] if 'nearest-wavelength slice' not in x] + [D_ARGMIN]
+PROPS['C16']['explanation'] += (' Cube packages: Models._read_version_2 with a wavelength instead of a filter name takes, through MonochromaticFluxes.from_sed_cube (flux[m,a] = val[m,a,k], error from unc, '
+                                'names/apertures of the cube), the slice at an index k such that no tabulated wavelength is closer to the requested one, and reports the requested wavelength for the band.')
+PROPS['C07']['e1'] = PROPS['C07']['e1'] + [FSC]
